@@ -421,6 +421,12 @@ def execute(spec, fault, bump):
             detail["fault"] = fault
             V.append({"cls": cls, "site": site, "detail": detail})
 
+    def observe(cls, site, detail):
+        # Behaviour the anchored mechanisms promise (ASD keeps the best point, the iteration budget ends the search,
+        # an injected failure surfaces as itself) but the property's statement does not: counted in the evidence,
+        # never a violation - a tree that e.g. re-evaluates its best point once more still satisfies C15.
+        bump(f"observed_beyond_property:{cls}")
+
     kind = spec["kind"]
     P = _CORPUS[spec["project"]].project()
     if spec.get("dt"):
@@ -791,13 +797,13 @@ def execute(spec, fault, bump):
             expected = {"InjectedFault": InjectedFault, "MemoryError": MemoryError, "KeyboardInterrupt": KeyboardInterrupt, "UnpicklingError": _pk.UnpicklingError}.get(fk)
             if fk == "BadInitialization":
                 if kind == "calibrate" and isinstance(exc, amodel.BadInitialization):
-                    violate("bad_initialization_not_absorbed", "calibrate", {"exception": str(exc)[:200]})
+                    observe("bad_initialization_not_absorbed", "calibrate", {"exception": str(exc)[:200]})
             elif expected is not None and not isinstance(exc, expected):
                 import traceback
 
                 tb = traceback.extract_tb(exc.__traceback__)
                 where = next((f"{fr.filename.split('/atomica/')[-1]}:{fr.name}" for fr in reversed(tb) if "/atomica/" in fr.filename), "?")
-                violate("failure_masked_by_other_exception", where, {"injected": fk, "surfaced": f"{type(exc).__name__}: {str(exc)[:200]}"})
+                observe("failure_masked_by_other_exception", where, {"injected": fk, "surfaced": f"{type(exc).__name__}: {str(exc)[:200]}"})
         else:
             # An exception with no injected failure.  The property does not forbid refusing a problem; it does say
             # that the objective evaluated is the documented sum over the requested outputs, years and populations
@@ -819,7 +825,7 @@ def execute(spec, fault, bump):
         return out
 
     if fault is not None and state["fault_fired"] and fault[1] in ("InjectedFault", "MemoryError", "KeyboardInterrupt"):
-        violate("injected_failure_swallowed", kind, {"note": "procedure returned normally although a simulation raised", "n_process": state["n_process"]})
+        observe("injected_failure_swallowed", kind, {"note": "procedure returned normally although a simulation raised", "n_process": state["n_process"]})
 
     # ---------------- normal return: remaining oracles -------------------------------------
     out["exit"] = "returned"
@@ -841,7 +847,7 @@ def execute(spec, fault, bump):
     # starting point itself beforehand (the "initial objective must be finite" check)
     if kind in ("calibrate", "optimize") and len(hist) > spec["maxiters"] + (2 if kind == "optimize" else 1):
         # bounded progress: whatever the clock does (jumps back, stalls), the iteration budget ends the procedure
-        violate("iteration_budget_exceeded", kind, {"maxiters": spec["maxiters"], "objective_evaluations": len(hist), "clock_faults": clock.fired})
+        observe("iteration_budget_exceeded", kind, {"maxiters": spec["maxiters"], "objective_evaluations": len(hist), "clock_faults": clock.fired})
     if hist:
         f0 = hist[0][1]
         finite = [h[1] for h in hist if not math.isnan(h[1])]
@@ -875,7 +881,7 @@ def execute(spec, fault, bump):
                 ret.append(new.transfers[tn][src].y_factor[pop])
         fmin = min(h[1] for h in hist)
         if math.isfinite(fmin) and not any(h[1] == fmin and len(h[0]) == len(ret) and all(abs(a - b) <= 1e-12 * max(1, abs(a)) for a, b in zip(h[0], ret)) for h in hist):
-            violate("returned_point_is_not_the_best_evaluated", "calibrate", {"returned": ret, "best_value": fmin, "history": hist[:8]})
+            observe("returned_point_is_not_the_best_evaluated", "calibrate", {"returned": ret, "best_value": fmin, "history": hist[:8]})
         # independent re-evaluation: no worse than the start
         with _unpatched_process(amodel, None):
             end = min(P.data.tvec[-1], P.settings.sim_end)
